@@ -426,6 +426,24 @@ func (e *SpecEnv) evalCall(x *ast.CallExpr) Val {
 (assert (forall ((d Data) (J (Array Int Int)) (k Int)) (! (=> (is%s d) (= (leafv d J k) (un%s d))) :pattern ((leafv d J k)))))
 (assert (forall ((d Data) (J (Array Int Int)) (k Int)) (! (=> (is%s d) (= (leafv d J k) (leafv (select (arrSl_Data (un%s d)) (select J k)) J (+ k 1)))) :pattern ((leafv d J k)))))`, bf, bf, bs, bs))
 		return realV(sx("leafv", arg(0).T, e.run.coerce(e.st, arg(1), idxSort, name), arg(2).T))
+	case "foldD", "foldK":
+		// foldD(f, d, n, acc): left fold of the binary function f over the leaves of the depth-n tree d in row-major
+		// order, starting from acc; foldK(f, d, n, acc, k): the same over the first k children of d only
+		e.run.needData()
+		e.run.needFn()
+		bf := e.run.boxFn("Real", "Data")
+		w.ensureSl("Data")
+		bs := e.run.boxFn("Sl_Data", "Data")
+		w.decls.declare("app_Real_Real", "(declare-fun app_Real_Real (Fn Real Real) Real)")
+		e.run.needNamed("foldD", fmt.Sprintf(`(declare-fun foldD (Fn Data Int Real) Real)
+(declare-fun foldK (Fn Data Int Real Int) Real)
+(assert (forall ((f Fn) (d Data) (n Int) (a Real)) (! (= (foldD f d n a) (ite (<= n 0) (app_Real_Real f a (un%s d)) (foldK f d n a (lenSl_Data (un%s d))))) :pattern ((foldD f d n a)))))
+(assert (forall ((f Fn) (d Data) (n Int) (a Real) (k Int)) (! (= (foldK f d n a k) (ite (<= k 0) a (foldD f (select (arrSl_Data (un%s d)) (- k 1)) (- n 1) (foldK f d n a (- k 1))))) :pattern ((foldK f d n a k)))))`, bf, bs, bs))
+		fn := e.run.coerce(e.st, arg(0), "Fn", name)
+		if name == "foldD" {
+			return realV(sx("foldD", fn, arg(1).T, arg(2).T, toReal(arg(3))))
+		}
+		return realV(sx("foldK", fn, arg(1).T, arg(2).T, toReal(arg(3)), arg(4).T))
 	case "forallG":
 		return e.quantSort(x, "R_GradContext", func(v string) Val {
 			return Val{K: KRef, T: v, Sort: "R_GradContext", Go: e.run.ptrTypeByName("GradContext")}
